@@ -41,6 +41,7 @@ func checkC04(w *World, r *Report) {
 	r.Explanation += " Round 11: (R04.12) loaders return the bytes of the file; (R04.13) Parse gets the source unchanged."
 	r.Explanation += " Round 12: (R04.14) Write methods report the whole argument."
 	r.Explanation += " Round 13: (R04.15) output staged in a buffer is delivered to the writer."
+	r.Explanation += " Round 14: (R04.16) TextNode makers store the text they are handed; R04.3 counts only node-yielding callees."
 	r.RuleText = "obligation = one transport step / one reader of a content field / one write into verbatim content; non-trivial = all"
 	r.Trusted = []string{"io.Writer implementations write the bytes they are given"}
 
